@@ -48,6 +48,25 @@ func main() {
 			fmt.Printf("%s=%d\n", k, h.Stats[k])
 		}
 		fmt.Println("ops", h.Ops, "lines", sink.NLines, "panics", h.Panics, "fails", sink.Fails)
+	case "one": // one history of a profile into a trace file (used by the determinism mode)
+		sink, err := NewSink(*trace, *driver)
+		if err != nil {
+			panic(err)
+		}
+		h, err := NewHist(Profile(*profile, *seed, *tier), sink)
+		if err != nil {
+			panic(err)
+		}
+		h.Run()
+		sink.Close()
+		h.N.Destroy()
+	case "restart":
+		writeJSON(*out, RestartTwins(*profile, *seed, *n, *tier, *keep))
+	case "determinism":
+		self, _ := os.Executable()
+		writeJSON(*out, Determinism(*profile, *seed, *n, *tier, *keep, self))
+	case "export":
+		writeJSON(*out, ExportRoundTrip(*profile, *seed, *n, *tier, *keep))
 	case "campaign":
 		res := Campaign(*profile, *seed, *n, *tier, *driver, *keep, *par)
 		writeJSON(*out, res)
